@@ -25,7 +25,7 @@ from twisted.internet import defer
 from twisted.python.failure import Failure
 from twisted.test import iosim
 
-from harness.sim.world import World
+from harness.sim.world import Addr, Conn, Net, Pending, World
 
 import signal
 import threading
@@ -82,6 +82,44 @@ def instrumented():
     finally:
         logger.removeHandler(tap)
         iosim.FakeTransport.write, iosim.FakeTransport.loseConnection = ow, ol
+
+
+class StubbornNet(Net):
+    """world.Net whose connection attempts can IGNORE cancel(): with `stubborn` on, the canceller of a pending
+    attempt accepts the connection and fires the Deferred with the protocol (the pathological endpoint of
+    afkak's test_close_connecting_succeed)."""
+
+    def __init__(self):
+        Net.__init__(self)
+        self.stubborn = False
+        self.on_stubborn_accept = None
+
+    def _connect(self, host, port, factory):
+        n = len(self.attempts)
+        self.attempts.append((host, port))
+        self.log.append(("connect", host, port))
+
+        def cancel(d):
+            p.cancelled = True
+            if p in self.pending:
+                self.pending.remove(p)
+            self.log.append(("connect-cancelled", host, port))
+            if self.stubborn:
+                p.done = True
+                proto = factory.buildProtocol(Addr(host, port))
+                conn = Conn(self, len(self.conns), host, port, proto)
+                self.conns.append(conn)
+                self.log.append(("accepted", conn.cid, host, port))
+                if self.on_stubborn_accept is not None:
+                    self.on_stubborn_accept(conn)
+                d.callback(proto)
+
+        d = defer.Deferred(cancel)
+        p = Pending(self, n, host, port, factory, d)
+        self.pending.append(p)
+        if self.policy is not None:
+            self.policy(p)
+        return d
 
 
 class _FwdList(list):
@@ -149,6 +187,8 @@ class BCRun(object):
         self.policy = [Fraction(p) for p in policy]
         self.policy_calls = []
         self.world = World()
+        self.world.net = StubbornNet()
+        self.world.net.on_stubborn_accept = lambda conn: setattr(self, "cur", conn)
         self.log = []
         self.harness_errors = []  # things that must never happen (a bug in this driver or an untracked effect)
         self.serial = 0
@@ -276,14 +316,15 @@ class BCRun(object):
 
     def _run_hook(self, serial):
         """The caller's callback: one re-entrant call into the broker client, from inside the firing."""
-        act = self.hooks.pop(serial, None)
-        if act is None:
+        acts = self.hooks.pop(serial, None)
+        if acts is None:
             return
         self.log.append("hook %d" % serial)
-        try:
-            self._ex(act)
-        except Exception as e:  # would be swallowed by the Deferred ("Unhandled error"): made visible
-            self.log.append("raise other:%s" % e.__class__.__name__)
+        for act in acts:  # the callback catches what each call raises and goes on
+            try:
+                self._ex(act)
+            except Exception as e:  # would be swallowed by the Deferred ("Unhandled error"): made visible
+                self.log.append("raise other:%s" % e.__class__.__name__)
         self.log.append("endhook")
 
     def _ex(self, w):
@@ -306,7 +347,15 @@ class BCRun(object):
             self.defs[cid] = d
             self.log.append("made %d %d" % (serial, cid))
             if len(w) > 3 and w[3] == "hook":
-                self.hooks[serial] = w[4:]
+                acts, cur = [], []
+                for t in w[4:]:
+                    if t == ";":
+                        acts.append(cur)
+                        cur = []
+                    else:
+                        cur.append(t)
+                acts.append(cur)
+                self.hooks[serial] = acts
             # callbacks are attached after makeRequest returned: anything that fired inside it is logged now,
             # AFTER the writes it made (the order a caller observes)
             d.addCallbacks(*self._fire_cb(serial, cid))
@@ -370,6 +419,8 @@ class BCRun(object):
             self.bc.updateMetadata(self.BrokerMetadata(1, "h%d" % int(w[1]), int(w[2])))
         elif op == "wfail":
             self.wfail = w[1] == "1"
+        elif op == "stubborn":
+            self.world.net.stubborn = w[1] == "1"
         else:
             raise ValueError("unknown event %r" % (w,))
 
@@ -441,7 +492,8 @@ class BCRun(object):
             tuple(sorted(c.getTime() - self.now() for c in self.world.clock.getDelayedCalls())),
             bytes(bc.proto._unprocessed) if bc.proto is not None else b"",
             self.wfail,
-            tuple(sorted((self.by_serial[k][0], tuple(v)) for k, v in self.hooks.items())),
+            tuple(sorted((self.by_serial[k][0], tuple(tuple(a) for a in v)) for k, v in self.hooks.items())),
+            self.world.net.stubborn,
         )
 
 
